@@ -7,6 +7,7 @@ All statements are about `Mxl.sortDeps`, the function the driver executes, which
 import MxlVerif.Lemmas.Sort
 import MxlVerif.Lemmas.SortMissing
 import MxlVerif.Lemmas.Unique
+import MxlVerif.Lemmas.PermInvariant
 namespace Mxl.C02
 open Mxl
 
@@ -143,6 +144,42 @@ theorem C02_order_independent_values {c c' : Content}
     ∀ kv ∈ cache.init, ∀ kv' ∈ cache'.init, kv.1 = kv'.1 → kv.2 = kv'.2 :=
   createCache_init_unique hts hbase hav hwf hwf' h h'
 
+/-- **Declaration order is irrelevant — for the executable pipeline itself.**  `c'` declares the
+    same variables, parameters, derived quantities, reactions, surrogates and data as `c`, each
+    container in any other order (`SameContent`).  If `_create_cache` (= `_sort_dependencies` +
+    one evaluation pass + classification) returns for `c`, it returns for `c'`, and the two caches
+    are equal as maps: every variable has the same initial value, every parameter / assignment-
+    defined parameter / derived parameter the same value, the same components are re-evaluated per
+    state, and the two time-zero environments agree on every name. -/
+theorem C02_declaration_order_irrelevant {c c' : Content} (hn : WFnames c)
+    (hsame : SameContent c' c) {cache : Cache} (hc : createCache c = .ok cache) :
+    ∃ cache', createCache c' = .ok cache' ∧
+      (∀ k, cache'.init.lookup k = cache.init.lookup k) ∧
+      (∀ k, cache'.allPars.lookup k = cache.allPars.lookup k) ∧
+      (∀ k, k ∈ cache'.dynOrder ↔ k ∈ cache.dynOrder) ∧
+      ∃ dep dep',
+        evalInOrder c.toSort cache.order
+          (baseEnv (plainOf c.pars) (plainOf c.vars) c.data 0) = .ok dep ∧
+        evalInOrder c'.toSort cache'.order
+          (baseEnv (plainOf c'.pars) (plainOf c'.vars) c'.data 0) = .ok dep' ∧
+        ∀ n, dep'.lookup n = dep.lookup n :=
+  createCache_perm_invariant hn hsame hc
+
+/-- **The verdict is a function of the graph alone**: acyclic and complete → an order; some
+    required name provided by nothing → the missing-dependency error; complete but not acyclic →
+    the circular-dependency error.  (The three graph conditions are exhaustive and exclusive.) -/
+theorem C02_verdict_by_graph (av : List Name) (els : List Dep) (hnd : (els.map (·.name)).Nodup) :
+    (Sortable av els → ∃ o, sortDeps av els = .ok o) ∧
+    (Incomplete av els → ∃ m, sortDeps av els = .error (.missing m)) ∧
+    (¬ Incomplete av els → ¬ Sortable av els → ∃ u, sortDeps av els = .error (.circular u)) :=
+  sortDeps_verdict av els hnd
+
+/-- **Rejection is order independent as well**: re-declaring the same content in another order
+    never turns numbers into an error, an error into numbers, or one error class into the other. -/
+theorem C02_outcome_order_independent {c c' : Content} (hn : WFnames c)
+    (hsame : SameContent c' c) : outcome (createCache c') = outcome (createCache c) :=
+  outcome_perm_invariant hn hsame
+
 /-! ### non-vacuity: concrete graphs meeting the hypotheses -/
 
 deriving instance DecidableEq for Except
@@ -163,5 +200,23 @@ example : sortDeps [] [⟨"a", ["b"], ["a"]⟩, ⟨"b", ["a"], ["b"]⟩]
     = .error (.circular [("b", ["a"]), ("a", ["b"])]) := by decide
 example : sortDeps ["p"] [⟨"a", ["zz", "p", "yy"], ["a"]⟩]
     = .error (.missing [("a", ["yy", "zz"])]) := by decide
+
+/-- a content and its reverse declaration: `SameContent`, well-named, and both build -/
+def exC : Content :=
+  { vars := [("x", .plain 2), ("y", .ia ⟨["d"], fun v => v.getD 0 0⟩)],
+    pars := [("p", .plain 3), ("q", .ia ⟨["p"], fun v => 2 * v.getD 0 0⟩)],
+    derived := [("d", ⟨["q"], fun v => v.getD 0 0 + 1⟩), ("e", ⟨["d", "x"], fun v => v.getD 0 0 * v.getD 1 0⟩)],
+    rxns := [("r", ⟨⟨["e"], fun v => v.getD 0 0⟩, [("x", .num (-1))]⟩)] }
+
+def exC' : Content :=
+  { exC with vars := exC.vars.reverse, pars := exC.pars.reverse, derived := exC.derived.reverse }
+
+example : SameContent exC' exC :=
+  ⟨List.reverse_perm _, List.reverse_perm _, List.reverse_perm _, .refl _, .refl _, .refl _⟩
+
+example : WFnames exC := ⟨by decide +kernel, by intro kv h; cases h⟩
+
+example : (createCache exC).toOption.map (·.init) = some [("x", 2), ("y", 7)] := by decide +kernel
+example : (createCache exC').toOption.map (·.init) = some [("y", 7), ("x", 2)] := by decide +kernel
 
 end Mxl.C02
